@@ -278,7 +278,7 @@ def plotPreAndPostRejection (dMc dFn : Dist) (s : HvTrad α) : HvTrad α × PPEx
 /-! ### `plot_seismic_recordings_3c` -/
 
 /-- the part of a `SeismicRecording3C` the plot reads -/
-structure Rec3 (α : Type) where
+structure PlotRec3 (α : Type) where
   ns : List α
   ew : List α
   vt : List α
@@ -290,17 +290,17 @@ def absMaxOf (l : List α) : α :=
   | [] => n# 0
   | x :: xs => xs.foldl (fun a y => if a < absA y then absA y else a) (absA x)
 
-def Rec3.comps (r : Rec3 α) : List (List α) := [r.ns, r.ew, r.vt]
+def PlotRec3.comps (r : PlotRec3 α) : List (List α) := [r.ns, r.ew, r.vt]
 
 /-- the normalisation loop: component-major, running maximum starting at 0 -/
-def normFactor (recs : List (Rec3 α)) : α :=
+def normFactor (recs : List (PlotRec3 α)) : α :=
   ([0, 1, 2] : List Nat).foldl (fun acc c =>
     recs.foldl (fun acc r =>
       let cm := absMaxOf (r.comps.getD c [])
       if acc < cm then cm else acc) acc) (n# 0)
 
 /-- the lines of one component panel: records laid end to end; returns the lines in order -/
-def compLines (factor : α) (c : Nat) : List (Rec3 α × Bool) → α → List (Line α)
+def compLines (factor : α) (c : Nat) : List (PlotRec3 α × Bool) → α → List (Line α)
   | [], _ => []
   | (r, valid) :: rest, start =>
     let amp := r.comps.getD c []
@@ -310,7 +310,7 @@ def compLines (factor : α) (c : Nat) : List (Rec3 α × Bool) → α → List (
     line :: compLines factor c rest (time.getLast?.getD start)
 
 /-- `plot_seismic_recordings_3c(srecords, valid_window_boolean_mask, normalize)`: the artists of the three panels -/
-def recordingLines (mask : Option (List Bool)) (recs : List (Rec3 α)) (normalize : Bool) :
+def recordingLines (mask : Option (List Bool)) (recs : List (PlotRec3 α)) (normalize : Bool) :
     Except String (List (List (Line α))) :=
   let m := mask.getD (recs.map (fun _ => true))
   if m.length ≠ recs.length then .error "masklength"
